@@ -8,6 +8,7 @@ C09.P  the NV relocation peephole rewrites an emitted operand only below a test
        that compares that operand with the address being relocated
 C09.M  relocation keeps handle and controller in step (new id allocated, state
        moved, old id freed, handle renamed on both paths; lowest unused id)
+C09.I  ids handed to internally created handles are known to be unused
 C09.X  controller side: allocation raises on a taken slot / out of bounds, free
        raises on an empty slot  (= C13.G)
 """
@@ -303,8 +304,73 @@ def check_relocation(ctx):
     ctx.check("C09.M", "_build_cmds_new_qubit:qalloc-then-init", ics == ["QALLOC", "INIT"], f"a new qubit emits {ics}", b.loc(nq) if nq else "", trivial=True)
 
 
+def check_new_handle_ids(ctx):
+    """C09.I: the explicit virtual id given to a handle created by SDK internals is known to be unused: None (the constructor
+    picks the lowest unused id, the handles created before it are already active), the direct result of
+    get_new_qubit_address(), or an id made free beforehand (relocation of id 0 / assert not is_qubit_id_used(id))"""
+    repo = ctx.repo
+    b = repo.get_class(B, "Builder")
+    n = 0
+    for name, fn in sorted(b.methods.items()):
+        mdefs = {k: [v for v in vs if v is not None] for k, vs in A.assigned_names(fn).items()}
+        for call in A.calls_in(fn, nested=True):
+            if not (isinstance(call.func, ast.Name) and call.func.id == "Qubit"):
+                continue
+            va = A.kwargs_of(call).get("virtual_address")
+            if va is None:
+                continue
+            n += 1
+            ctx.fn(f"Builder.{name}")
+            doms = G.dominating_stmts(fn, call)
+            freed0 = any(A.call_name(c) == "_build_cmds_free_up_qubit_location" and c.args and isinstance(c.args[0], ast.Constant) and c.args[0].value == 0 for st in doms for c in ast.walk(st) if isinstance(c, ast.Call))
+
+            def fresh(e) -> Optional[str]:
+                if isinstance(e, ast.Constant) and e.value is None:
+                    return "None (constructor picks the lowest unused id)"
+                if isinstance(e, ast.Constant) and e.value == 0:
+                    return "0 after relocating the occupant of id 0" if freed0 else None
+                if isinstance(e, ast.Call) and A.call_name(e) == "get_new_qubit_address" and not e.args:
+                    return "get_new_qubit_address()"
+                if isinstance(e, ast.Name):
+                    ds = mdefs.get(e.id, [])
+                    if ds and all(fresh(d) for d in ds):
+                        return " | ".join(sorted({fresh(d) for d in ds}))
+                    # asserted unused (with the id-0 case covered by the relocation)
+                    asserted = False
+                    for st in doms:
+                        for x in ast.walk(st):
+                            if isinstance(x, ast.Assert) and A.norm(x.test) in (f"notself._mem_mgr.is_qubit_id_used({e.id})",):
+                                # the assert may sit in the non-zero arm of `if id == 0`
+                                outer = [(A.norm(tt), pol) for tt, pol in G.enclosing_tests(fn, call)]
+                                t = [(A.norm(tt), pol) for tt, pol in G.enclosing_tests(fn, x)]
+                                t = [y for y in t if y not in outer]
+                                if not t or (all(txt == f"{e.id}==0" and not pol for txt, pol in t) and freed0):
+                                    asserted = True
+                    if asserted:
+                        return "asserted unused"
+                return None
+            why = fresh(va)
+            ctx.check("C09.I", f"Builder.{name}:Qubit(virtual_address={A.norm(va)})", why is not None,
+                      f"Builder.{name} creates a handle with virtual_address=`{src(va)}`, an id that is not known to be unused (not None, not the direct result of get_new_qubit_address(), "
+                      f"not asserted/made free): it can collide with a live qubit when the ids in use have a hole", b.loc(call), sample={"site": name, "virtual_address": src(va), "why_unused": why})
+    ctx.anchor("C09.I", "handles created with an explicit virtual id", n, 3)
+    # the Qubit constructor takes the lowest unused id when none is given, and activates immediately
+    qc = repo.get_class("netqasm.sdk.qubit", "Qubit")
+    init = qc.methods["__init__"]
+    ok = False
+    for st in init.body:
+        if isinstance(st, ast.If) and A.norm(st.test) == "virtual_addressisNone":
+            ok = any(isinstance(s2, (ast.Assign, ast.AnnAssign)) and A.norm(s2.value) == "self.builder.new_qubit_id()" for s2 in st.body) and \
+                any(isinstance(s2, ast.Assign) and A.norm(s2.value) == "virtual_address" for s2 in st.orelse)
+    ctx.check("C09.I", "Qubit.__init__:lowest-unused-id-when-none-given", ok, "the Qubit constructor does not take builder.new_qubit_id() when no virtual address is given", qc.loc(init))
+    nq = b.methods.get("new_qubit_id")
+    ok = nq is not None and any(A.norm(r.value) == "self._mem_mgr.get_new_qubit_address()" for r in A.returns(nq))
+    ctx.check("C09.I", "Builder.new_qubit_id:from-memory-manager", ok, "Builder.new_qubit_id does not return the memory manager's lowest unused id", b.loc(nq) if nq else "", trivial=True)
+
+
 def run(ctx):
     check_qfree_pairing(ctx)
+    check_new_handle_ids(ctx)
     check_handles(ctx)
     check_peephole(ctx)
     check_relocation(ctx)
@@ -325,6 +391,8 @@ SEEDS = [
          new="                        self._build_cmds_move_qubit(\n                            source=virtual_address, target=new_virtual_address\n                        )\n                        # From now on, the original qubit should be referred to with the new virtual address.\n                        q.qubit_id = new_virtual_address"),
     dict(id="c09-move-no-free", file=BF, expect="C09.M", construct="_build_cmds_move_qubit", old="        self._build_cmds_two_qubit(GenericInstr.MOV, source, target)\n        self._build_cmds_qfree(source)", new="        self._build_cmds_two_qubit(GenericInstr.MOV, source, target)"),
     dict(id="c09-new-id", file="netqasm/sdk/memmgr.py", expect="C09.M", construct="get_new_qubit_address", old="        for address in count(0):\n            if address not in qubit_addresses_in_use:", new="        for address in count(1):\n            if address not in qubit_addresses_in_use:"),
+    dict(id="c09-consecutive-ids", file=BF, expect="C09.I", construct="_create_ent_qubits", old="                    virtual_address=virt_id,\n", new="                    virtual_address=virt_id if sequential else self._mem_mgr.get_new_qubit_address() + i,\n"),
+    dict(id="c09-nv-no-relocation", file=BF, expect="C09.I", construct="_create_ent_qubits", old="            # NV: only ID 0 can be used for entanglement\n            self._build_cmds_free_up_qubit_location(0)\n", new="            # NV: only ID 0 can be used for entanglement\n"),
     dict(id="c09-ent-qubit-dropped", file=BF, expect="C09.L", construct="_create_ent_qubits", old="                    q = Qubit(\n                        self._connection,\n                        add_new_command=False,\n                        ent_info=ent_info_slice,\n                        virtual_address=0,\n                    )\n                    qubits.append(q)", new="                    q = Qubit(\n                        self._connection,\n                        add_new_command=False,\n                        ent_info=ent_info_slice,\n                        virtual_address=0,\n                    )"),
     dict(id="c09-double-alloc", file="netqasm/backend/executor.py", expect="C09.X", construct="_allocate_physical_qubit", old="        if unit_module[virtual_address] is None:\n            if physical_address is None:", new="        if True:\n            if physical_address is None:"),
 ]
